@@ -136,3 +136,26 @@ Qed.
 
 Theorem set_fd_type_spec : forall f is_fd, set_fd_type f is_fd = (is_fd || (8 <? f)).
 Proof. intros f [|]; unfold set_fd_type; destruct (f >? 8) eqn:E; destruct (8 <? f) eqn:E2; try reflexivity; lia. Qed.
+
+(* ---------- matrix level: every frame is treated on its own ---------- *)
+
+Theorem recalc_dlc_frame_by_frame : forall strategy before f sigs after,
+  let r := recalc_dlc strategy (before ++ (f, sigs) :: after) in
+  length r = length (before ++ (f, sigs) :: after) /\
+  nth (length before) r 0 = recalc_frame strategy f sigs /\
+  r = recalc_dlc strategy before ++ recalc_dlc strategy [(f, sigs)] ++ recalc_dlc strategy after.
+Proof.
+  intros strategy before f sigs after. cbv zeta. unfold recalc_dlc. split; [apply map_length|]. split.
+  - rewrite map_app. rewrite app_nth2 by (rewrite map_length; lia). rewrite map_length, Nat.sub_diag. reflexivity.
+  - rewrite map_app. reflexivity.
+Qed.
+
+Theorem set_fd_types_frame_by_frame : forall before f fd after,
+  let r := set_fd_types (before ++ (f, fd) :: after) in
+  length r = length (before ++ (f, fd) :: after) /\
+  nth (length before) r false = (fd || (8 <? f)).
+Proof.
+  intros before f fd after. cbv zeta. unfold set_fd_types. split; [apply map_length|].
+  rewrite map_app. rewrite app_nth2 by (rewrite map_length; lia). rewrite map_length, Nat.sub_diag.
+  cbn [map nth fst snd]. apply set_fd_type_spec.
+Qed.
